@@ -214,7 +214,6 @@ class UnitRegistry:
                 "in this registry."
             )
 
-        self._forget_prefixed(symbol)
         if hasattr(base_value, "in_base"):
             new_dimensions = base_value.units.dimensions
             base_value = base_value.in_base("mks")
@@ -222,7 +221,12 @@ class UnitRegistry:
         else:
             new_dimensions = self.lut[symbol][1]
 
+        # only now: converting a quantity argument may have looked units up in
+        # this registry, which derives prefixed rows from the old entry and
+        # memoises the contents id again
+        self._forget_prefixed(symbol)
         self.lut[symbol] = (float(base_value), new_dimensions) + self.lut[symbol][2:]
+        self._unit_system_id = None
         # any cached unit string (prefixed or compound) may mention the symbol
         self._unit_object_cache.clear()
 
